@@ -4,7 +4,7 @@ import vlib
 from props import clihist_common as C
 from props._client_family import *  # noqa
 
-TRANSLATORS = ["http_gate", "sniff"]
+TRANSLATORS = ["http_gate", "sniff", "client_dispatch"]     # client_dispatch: Gen/ClientDispatchGen.v, the dispatch of handle_recv_message read from the source (Model/ClientMgr.v, which Model/HttpBatch.v imports, interprets it)
 MODELS = ["clihist", "httpbatch"]
 BINS = {"release": ["clihist", "httpbatch"]}
 
